@@ -60,6 +60,9 @@ class FnWorld:
             self.vals.append(v)
             self.vid_of[id(v)] = a["vid"]
         self.defaults = {}
+        self.defs_by_id = {d["id"]: d for d in sc["defs"]}
+        self.accepts = []
+        self.glb = None
 
     def make_value(self, a):
         k = a["kind"]
@@ -168,10 +171,20 @@ class FnWorld:
                 return (0, len(tyrank))
 
         RANK["fn"] = rank
+        # count invocations of MultiTypeMap.resolve (C20): instrumentation from outside, undone afterwards
+        orig_resolve = tmod.MultiTypeMap.resolve
+        counter = self.nres = [0]
+
+        def counting_resolve(mm, key):
+            counter[0] += 1
+            return orig_resolve(mm, key)
+
+        tmod.MultiTypeMap.resolve = counting_resolve
         try:
             return self._run(Ovld, call_next, recurse)
         finally:
             RANK["fn"] = None
+            tmod.MultiTypeMap.resolve = orig_resolve
 
     def _run(self, Ovld, call_next, recurse):
         sc = self.sc
@@ -180,6 +193,16 @@ class FnWorld:
         fw = self
 
         def ENTER(mid, pos, kw):
+            d = fw.defs_by_id[mid]
+            pp = [p for p in d["params"] if p["kind"] != "ko"]
+            bad = []
+            for p, v in zip(pp, pos):
+                if fw.canon_val(mid, v) is not None and not fw.is_instance(v, mid, p["name"]):
+                    bad.append(p["name"])
+            for n, v in kw.items():
+                if fw.canon_val(mid, v) is not None and not fw.is_instance(v, mid, n):
+                    bad.append(n)
+            fw.accepts.append([mid, bad])
             log.append([mid, [fw.canon_val(mid, v) for v in pos], sorted([n, fw.canon_val(mid, v)] for n, v in kw.items())])
 
         def DOWN():
@@ -193,6 +216,7 @@ class FnWorld:
         glb = {"__name__": "verif_fnmod", "ENTER": ENTER, "DOWN": DOWN, "UP": UP, "call_next": call_next, "recurse": recurse}
         for i, v in enumerate(self.vals):
             glb[f"C{i}"] = v
+        self.glb = glb
         ov = Ovld(allow_replacement=sc.get("allowReplacement", True))
         fns = {}
         for i, d in enumerate(sc["defs"]):
@@ -201,7 +225,9 @@ class FnWorld:
         selfobj = Val()
         for op in sc["ops"]:
             del log[:]
+            del self.accepts[:]
             depth[0] = 0
+            self.nres[0] = 0
             try:
                 if op[0] == "reg":
                     d = sc["defs"][op[1]]
@@ -220,14 +246,24 @@ class FnWorld:
                     else:
                         r = f(*pos, **kw)
                     o = ["ran", r[1]] if isinstance(r, tuple) and r and r[0] == "ret" else ["returned", repr(r)[:100]]
-                    out.append({"o": o, "t": self.canon_log()})
+                    out.append({"o": o, "t": self.canon_log(), "nres": self.nres[0], "raw": [list(e) for e in log], "acc": [list(a) for a in self.accepts]})
             except Exception as e:  # noqa
                 k = kind_of_exc(e)
                 if op[0] == "call":
-                    out.append({"o": k, "t": self.canon_log()})
+                    out.append({"o": k, "t": self.canon_log(), "nres": self.nres[0], "raw": [list(e) for e in log], "acc": [list(a) for a in self.accepts], "msg": str(e)[:160]})
                 else:
                     out.append({"o": k})
         return out
+
+    def is_instance(self, v, mid, pname):
+        """the second witness of C01: Python's own isinstance against the declared annotation object"""
+        t = self.glb[f"T_{mid}_{pname}"]
+        try:
+            return isinstance(v, t)
+        except TypeError:
+            from ovld.mro import subclasscheck
+
+            return subclasscheck(type(v), t)
 
     def canon_val(self, mid, v):
         """vid of a supplied object; None for this method's own default; -2 for anything else (another method's
